@@ -1,6 +1,7 @@
 package main
 
 import (
+	"fmt"
 	"go/constant"
 	"go/token"
 	"go/types"
@@ -11,7 +12,7 @@ import (
 
 func init() {
 	register(&propCheck{id: "C03", needRoot: true, run: checkC03,
-		explanation: "Decided statically: (1) FORMAT — the ICS-23 leaf op is built as prefix = varint(0) varint(1) varint(version) with SHA256 / SHA256 pre-hash / VAR_PROTO length, and each inner op as varint(height) varint(size) varint(version) followed by either 0x20‖left‖0x20 with an empty suffix, or 0x20 with suffix 0x20‖right — i.e. exactly the pinned hash pre-image with a hole at the child; the per-level proof node takes height and size from the node itself and the sibling hash from the child on the OPPOSITE side of the direction descended; (2) DOM/ERR — asking for a non-membership proof of a present key leaves with an error before any proof is built; a proof is never returned together with an error and the proof path's result is not used before its error is examined. NOT decided: neighbour selection for absence, that produced proofs verify, that they fail for a wrong key/value/root (value-level)."})
+		explanation: "Decided statically: (1) FORMAT — the ICS-23 leaf op is built as prefix = varint(0) varint(1) varint(version) with SHA256 / SHA256 pre-hash / VAR_PROTO length, and each inner op as varint(height) varint(size) varint(version) followed by either 0x20‖left‖0x20 with an empty suffix, or 0x20 with suffix 0x20‖right — i.e. exactly the pinned hash pre-image with a hole at the child; the per-level proof node takes height and size from the node itself and the sibling hash from the child on the OPPOSITE side of the direction descended; (2) DOM/ERR — asking for a non-membership proof of a present key leaves with an error before any proof is built; a proof is never returned together with an error and the proof path's result is not used before its error is examined. Added in the build round: proofs never consult the fast index and versioned proofs use the committed snapshot (OWN-proof-from-tree); TABLE-neighbours — the absence proof looks up rank-1 (only when rank >= 1) and rank, and proves exactly those two keys. NOT decided: that produced proofs verify, that they fail for a wrong key/value/root (value-level)."})
 }
 
 func checkC03(c *Ctx) {
@@ -161,6 +162,50 @@ func checkC03(c *Ctx) {
 		}
 		for _, in := range callsIn(gnm, predStatic(cep)) {
 			c.decide("DOM-wrong-kind", "GetNonMembershipProof builds neighbour proof", l.ipos(in), guardsEffect(gs, in), "only after the key was found absent", "a neighbour proof is built without the absence test")
+		}
+	}
+	// ---- neighbours of an absent key
+	c.rule("TABLE-neighbours", "absence proof: left neighbour = rank-1 (if rank >= 1), right neighbour = rank (if present), each proved by an existence proof", 5)
+	if gbi := l.Func("", "*ImmutableTree.GetByIndex"); gnm != nil && gwi != nil && cep != nil && gbi != nil {
+		rank := "GetWithIndex(recv,arg0)#0"
+		lk, rk := "GetByIndex(recv,("+rank+"-1))#0", "GetByIndex(recv,"+rank+")#0"
+		var nLeft, nRight int
+		for _, in := range callsIn(gnm, predStatic(gbi)) {
+			r := roleOf(l, callCommon(in).Args[1], "", 0)
+			switch r {
+			case "(" + rank + "-1)":
+				nLeft++
+				// only when there is something to the left: rank >= 1
+				isRank := func(v ssa.Value) bool { return roleOf(l, v, "", 0) == rank }
+				one := func(v ssa.Value) bool { k, ok := constInt(v); return ok && k == 1 }
+				zero := func(v ssa.Value) bool { k, ok := constInt(v); return ok && k == 0 }
+				gs := append(findGuards(gnm, cmpMatcher(token.GEQ, isRank, one, false)), findGuards(gnm, cmpMatcher(token.GTR, isRank, zero, false))...)
+				c.decide("TABLE-neighbours", "left neighbour looked up at rank-1 only when rank >= 1", l.ipos(in), guardsEffect(gs, in), "guarded by rank >= 1", "GetByIndex(rank-1) is not guarded by `rank >= 1`: for a key below the smallest key a negative rank is looked up")
+			case rank:
+				nRight++
+				c.ok("TABLE-neighbours", "right neighbour looked up at the rank of the absent key", l.ipos(in), "GetByIndex(rank)")
+			default:
+				c.bad("TABLE-neighbours", "neighbour lookup at `"+r+"`", l.ipos(in), "a neighbour is looked up at `"+r+"`; the neighbours of an absent key of rank r are the keys of rank r-1 and r")
+			}
+		}
+		if nLeft != 1 || nRight != 1 {
+			c.bad("TABLE-neighbours", "both neighbours are looked up", l.pos(gnm.Pos()), fmt.Sprintf("%d lookups at rank-1 and %d at rank (one each expected)", nLeft, nRight))
+		}
+		if neT := findNamedInDeps(l, "github.com/cosmos/ics23/go", "NonExistenceProof"); neT == nil {
+			c.anchorMissing("TABLE-neighbours", "ics23.NonExistenceProof")
+		} else {
+			for _, m := range structStoresAll(gnm, neT) {
+				get := func(f string) string {
+					var rs []string
+					for _, v := range m[f] {
+						rs = append(rs, roleOf(l, v, "", 0))
+					}
+					return strings.Join(rs, " | ")
+				}
+				c.decide("TABLE-neighbours", "NonExistenceProof.Key is the queried key", l.pos(gnm.Pos()), get("Key") == "arg0", "Key: key", "NonExistenceProof.Key is `"+get("Key")+"`")
+				c.decide("TABLE-neighbours", "NonExistenceProof.Left proves the key of rank-1", l.pos(gnm.Pos()), get("Left") == "createExistenceProof(recv,"+lk+")#0", "existence proof of GetByIndex(rank-1)", "NonExistenceProof.Left is `"+get("Left")+"`")
+				c.decide("TABLE-neighbours", "NonExistenceProof.Right proves the key of rank", l.pos(gnm.Pos()), get("Right") == "createExistenceProof(recv,"+rk+")#0", "existence proof of GetByIndex(rank)", "NonExistenceProof.Right is `"+get("Right")+"`")
+			}
 		}
 	}
 	// ---- proofs are computed from this tree only
